@@ -368,6 +368,23 @@ func runC08(c C08Case) string {
 				}
 				stack = stack[:len(stack)-1]
 				top().on = false
+				// between StepOut and the next Next there is no current value: nothing
+				// of the child the reader stood on may linger
+				if ty := r.Type(); ty != ion.NoType {
+					msg = fmt.Sprintf("after StepOut, before the next Next: Type() = %v, want NoType", ty)
+					break
+				}
+				if as, _ := r.Annotations(); len(as) != 0 {
+					msg = fmt.Sprintf("after StepOut, before the next Next: Annotations() = %v", as)
+					break
+				}
+				if arg%2 == 1 {
+					if err := r.StepIn(); err == nil {
+						msg = "StepIn() right after StepOut (no current value) succeeded"
+						break
+					}
+					classes["refused-stepin"] = true
+				}
 			case kind < 15:
 				trace = append(trace, "read")
 				if arg%2 == 1 {
